@@ -408,7 +408,9 @@ Fixpoint lev_rows (a b : list N) (x : N) (row : list N) : list N :=
   | c :: t => lev_rows a t (x + 1) ((x + 1) :: lev_row (tl row) a c (x + 1) (hd 0 row))
   end.
 Definition lev (a b : list N) : N := last (lev_rows a b 0 (iotaN 0 (S (length a)))) 0.
-Definition l0_distance (a b : list N) (max : N) : N := N.min (lev a b) max.
+(* the distance is symmetric; like the code, the programme keeps the shorter string in the columns *)
+Definition l0_distance (a b : list N) (max : N) : N :=
+  let '(sh, lo) := if lenN b <? lenN a then (b, a) else (a, b) in N.min (lev sh lo) max.
 
 (* the same programme with the code's early exit: the pinned tree tested the last column of the row, the repaired
    code tests the minimum of the row *)
